@@ -89,6 +89,39 @@ CHECKS = {
         "constraints are read from class declarations and a hand-written table of the 18 custom validate_args rules; warn-only strings excluded",
         "property-based testing: exhaustive enumeration of declared constraints x routes + Hypothesis-mutated trees against an independent validator",
     ),
+    "C07": (
+        "exploration",
+        "Generated valid documents of every class contaminated with 1-5 foreign nodes (unknown leaf / empty element / aggregate with "
+        "known sub-trees, vendor-prefixed leaf / aggregate, other classes' tags) at arbitrary positions of arbitrary aggregates, "
+        "delivered as element tree and as XML and SGML text; metamorphic oracle: equal to the conversion of the uncontaminated document, input tree untouched.",
+        "unknown = not an attribute name or OFX tag of the enclosing class; warnings are not an oracle",
+        "property-based testing: Hypothesis structured generation + metamorphic relation (insertions do not change the result)",
+    ),
+    "C11": (
+        "exploration",
+        "Instances of every class from wide scalar domains (whole Decimal space incl. special values, markup-heavy strings, any fixed "
+        "offset and zone name); what the library accepts and writes is checked leaf by leaf against the lexical rule of the declared "
+        "type, and each wire form is tokenised by an independent lexer (no raw '<', every '&' an entity, data identical to the tree).",
+        "refusals are allowed; lexical rules are the harness's own regexes",
+        "property-based testing: Hypothesis generation over wide value domains; validity-predicate oracle per declared type + independent wire lexer",
+    ),
+    "C13": (
+        "exploration",
+        "Finite space enumerated exhaustively: every class x (found by tag; each declared child constructible, written under its tag, read "
+        "back through XML and SGML without unknown-tag warning; Unsupported children tolerated; every exclusivity group names declared, "
+        "non-repeated, optional children and is in force in each inheriting class; maximal instance of classes with repeated children "
+        "accepted by the library's own reader).",
+        "probe values come from the harness's minimal-instance builder; unclosed-SGML probes skip the open known finding of C01",
+        "exhaustive enumeration of (class, child, obligation) triples with construct/write/read probes (property-based testing over a finite domain)",
+    ),
+    "C16": (
+        "exploration",
+        "Generated instances of all classes plus dense OFX / message-set roots: flat access compared with the stored object for every "
+        "uniquely-defined name (computed from declarations), all documented shortcuts compared by identity with explicit path walkers, "
+        "undefined and dunder names must miss cleanly, copy / deepcopy / pickle (all protocols) must reproduce an equal model.",
+        "names that are class attributes / properties of any class on the path are excluded from the flat-access obligation",
+        "property-based testing: Hypothesis structured generation; reference-model oracle (explicit path walkers) and round-trip oracle for copies",
+    ),
 }
 
 PENDING_REASON = "check not built yet in this round (planned in DESIGN.md §3); not claimed until its machinery exists and is quiet on the unchanged tree"
